@@ -5,6 +5,7 @@ package headers
 // natively compiled code (go test -overlay).
 
 import (
+	"time"
 	"encoding/hex"
 	"encoding/json"
 	"fmt"
@@ -136,7 +137,7 @@ func verifAllocDone() {
 
 // verifQuiesce / verifAdvanceClock / verifBlockedInfo only have meaning under the engine's scheduler.
 func verifQuiesce() int         { return 0 }
-func verifAdvanceClock(d int64) {}
+func verifAdvanceClock(d int64) { time.Sleep(time.Duration(d)) }
 func verifBlockedInfo() string  { return "" }
 
 func verifRunCase(k int, c *verifCase) (failed bool) {
